@@ -426,8 +426,6 @@ Lemma snake_ident s : allc identc s = true -> allc identc (snake s) = true.
 Proof. apply allc_snake; [reflexivity|exact lower_c_ident]. Qed.
 Lemma camel_ident s : allc identc s = true -> allc identc (camel s) = true.
 Proof. apply (allc_camel identc lower_c_ident). Qed.
-Lemma dec_ident i : allc identc (dec i) = true.
-Proof. apply (allc_impl is_digit); [intros c H; apply alnum_ident, digit_alnum; exact H|apply allc_dec]. Qed.
 Lemma letter_ident i : allc identc (letter i) = true.
 Proof. apply (allc_impl CharClass.alnumc); [exact alnum_ident|apply allc_letter]. Qed.
 
@@ -544,13 +542,6 @@ Proof.
 Qed.
 
 (* ---------------------------------------------------------------- admissible names make the per-instance conditions of C16 true *)
-Lemma ident_no_lg s : allc identc s = true -> no_lg s = true.
-Proof.
-  induction s as [|c s IH]; [reflexivity|]. cbn [allc no_lg]. intros H. apply andb_prop in H as [Hc Hs]. rewrite (IH Hs), andb_true_r.
-  apply negb_true_iff. unfold is_lg. destruct (Ascii.eqb c Engine.LT) eqn:E1; [apply Ascii.eqb_eq in E1; subst c; discriminate|].
-  destruct (Ascii.eqb c Engine.GT) eqn:E2; [apply Ascii.eqb_eq in E2; subst c; discriminate|]. reflexivity.
-Qed.
-
 Lemma vals_ident_no_lg tb : vals_ident tb = true -> forallb (fun kv : string * string => no_lg (snd kv)) tb = true.
 Proof. unfold vals_ident. apply forallb_impl. intros kv H. apply ident_no_lg. exact H. Qed.
 
